@@ -307,12 +307,8 @@ class UnpackLog:
         return SBool(lib.uf("dns_unpack_fails", z3.StringSort(), z3.BoolSort())(data.t))
 
     def native_fails(self, data):
-        import struct
-        try:
-            _REAL["unpack"](bytes(data))
-            return False
-        except struct.error:
-            return True
+        # natively the uninterpreted predicate is instantiated by an arbitrary fixed one (any instance is a valid replay)
+        return bytes(data[:1]) == b"\xff"
 
     def __call__(self, vc, cls, data, timestamp=None):
         self.calls.append(data)
@@ -322,6 +318,24 @@ class UnpackLog:
 
 
 _REAL = {}
+
+
+def _register_oracle():
+    from pyvc import lib
+    lib.UF_ORACLES.setdefault("dns_unpack_fails", lambda s: s[:1] == "\xff")
+
+
+_register_oracle()
+STREAMS = [b"", b"\x00", b"\x00\x03abc", b"\x00\x03abc\x00\x02de", b"\x00\x03abc\x00", b"\x00\x03abc\x00\x05d", b"\x00\x00", b"\x00\x03abc\x00\x00", b"\x00\x01\xff",
+           b"\x00\x03abc\x00\x01\xff", b"\x00\x05ab", b"\x00\x03abc\x00\x02de\x00\x01f", b"abc", b"\xffx"]
+STREAM_CANDS = [dict(stream=x, data=x, kept=b"") for x in STREAMS] + [dict(kept=x[:k], data=x[k:]) for x in STREAMS[2:10] for k in (1, 2, 4, 5)]
+
+
+def be16_or(buf, i):
+    """big-endian 16-bit value at i, or -1 if it does not lie inside buf (total in both modes)"""
+    if is_sym(buf) or is_sym(i):
+        return be16(buf, i)
+    return buf[i] * 256 + buf[i + 1] if 0 <= i and i + 1 < len(buf) else -1
 
 
 def install_unpack(vc, log):
@@ -340,7 +354,7 @@ def msg_data(m):
     return m[1]
 
 
-@scenario("extract.udp", functions=[L + ".unpack_message"])
+@scenario("extract.udp", functions=[L + ".unpack_message"], candidates=STREAM_CANDS)
 def s_extract_udp(vc):
     """UDP: one datagram is one message; the TCP buffers are not touched."""
     from_client = vc.case("from", ["client", "server"]) == "client"
@@ -376,24 +390,22 @@ def check_frames(vc, stream, log_calls, tag):
     """the decoder was applied to consecutive length-prefixed frames of `stream`, in order; returns the offset after the last one"""
     pos = 0
     for i, d in enumerate(log_calls):
-        n = be16(stream, pos)
+        n = be16_or(stream, pos)
         vc.ensure(f"{tag}.frame{i}.is_the_next_length_prefixed_frame", And(pos + 2 + n <= len_(stream), n > 0, d == stream[pos + 2:pos + 2 + n]))
         pos = pos + 2 + n
     return pos
 
 
-@scenario("extract.tcp.frames", functions=[L + ".unpack_message"], max_unroll=3)
+@scenario("extract.tcp.frames", functions=[L + ".unpack_message"], max_unroll=3, candidates=STREAM_CANDS)
 def s_extract_tcp(vc):
-    """TCP (RFC 1035 §4.2.2): the stream (bytes kept from earlier segments + the new segment) is cut into two-octet-length-prefixed
-    frames; every complete frame is decoded, in order; what remains (an incomplete frame) is kept for the next segment; a zero
-    length prefix is a parse error. (Up to 2 complete frames per call.)"""
+    """TCP (RFC 1035 §4.2.2), empty buffer: the segment is cut into two-octet-length-prefixed frames; every complete frame is
+    decoded, in order; what remains (an incomplete frame) is kept for the next segment; a zero length prefix is a parse error.
+    (Up to 2 complete frames per call.)"""
     from_client = vc.case("from", ["client", "server"]) == "client"
-    kept = vc.sym_bytes("kept")
-    data = vc.sym_bytes("data")
-    layer, client, server = mk_dns_layer(vc, "tcp", "tcp", req_buf=kept if from_client else b"", resp_buf=b"" if from_client else kept)
-    stream = kept + data
+    stream = vc.sym_bytes("stream")
+    layer, client, server = mk_dns_layer(vc, "tcp", "tcp")
     log = UnpackLog()
-    out = run_extract(vc, layer, data, from_client, log)
+    out = run_extract(vc, layer, stream, from_client, log)
     vc.ensure("total.only_parse_error", Or(out.ok, raised_is(out, SE())))
     pos = check_frames(vc, stream, log.calls, "decode")
     buf = layer.req_buf if from_client else layer.resp_buf
@@ -404,43 +416,295 @@ def s_extract_tcp(vc):
         if len_(out.result) == len(log.calls):
             for i, d in enumerate(log.calls):
                 vc.ensure(f"ok.message{i}", msg_data(out.result[i]) == d)
-        vc.ensure("ok.no_complete_frame_left", Or(Ls - pos < 2, Ls - pos - 2 < be16(stream, pos)))
-        vc.ensure("ok.next_prefix_not_zero", Or(Ls - pos < 2, be16(stream, pos) != 0))
+        vc.ensure("ok.no_complete_frame_left", Or(Ls - pos < 2, Ls - pos - 2 < be16_or(stream, pos)))
+        vc.ensure("ok.next_prefix_not_zero", Or(Ls - pos < 2, be16_or(stream, pos) != 0))
         vc.ensure("ok.rest_is_kept", buf == stream[pos:])
         vc.ensure("ok.other_direction_untouched", len_(other) == 0)
     else:
         # a parse error is only legitimate for a zero length prefix or a frame the decoder rejects
         last_failed = log.fails(vc, log.calls[-1]) if log.calls else False
-        zero = And(Ls - pos >= 2, be16(stream, pos) == 0)
+        zero = And(Ls - pos >= 2, be16_or(stream, pos) == 0)
         vc.ensure("error.justified", Or(last_failed, zero))
 
 
-@scenario("extract.tcp.segmentation", functions=[L + ".unpack_message"], max_unroll=3)
+@scenario("extract.tcp.buffering", functions=[L + ".unpack_message"], max_unroll=2, candidates=STREAM_CANDS)
+def s_extract_buffering(vc):
+    """Bytes kept from earlier segments and the new segment are processed exactly like their concatenation arriving at once on
+    an empty buffer: same messages, same parse errors, same rest kept. With `extract.tcp.frames` (greedy framing of one stream)
+    this gives independence of the segmentation by induction over the segments."""
+    from_client = vc.case("from", ["client", "server"]) == "client"
+    kept, data = vc.sym_bytes("kept"), vc.sym_bytes("data")
+    l1, c1, s1 = mk_dns_layer(vc, "tcp", "tcp", req_buf=kept if from_client else b"", resp_buf=b"" if from_client else kept)
+    l2, c2, s2 = mk_dns_layer(vc, "tcp", "tcp")
+    log1, log2 = UnpackLog(), UnpackLog()
+    o1 = run_extract(vc, l1, data, from_client, log1)
+    o2 = run_extract(vc, l2, kept + data, from_client, log2)
+    vc.ensure("same_outcome", o1.ok == o2.ok)
+    vc.ensure("same_frames_decoded", len(log1.calls) == len(log2.calls))
+    for i, (x, y) in enumerate(zip(log1.calls, log2.calls)):
+        vc.ensure(f"same_frame{i}", x == y)
+    if o1.ok and o2.ok:
+        vc.ensure("same_number_of_messages", len_(o1.result) == len_(o2.result))
+        b1 = l1.req_buf if from_client else l1.resp_buf
+        b2 = l2.req_buf if from_client else l2.resp_buf
+        vc.ensure("same_rest_kept", b1 == b2)
+
+
+@scenario("extract.tcp.segmentation.two_frames", functions=[L + ".unpack_message"], max_unroll=3)
 def s_extract_split(vc):
-    """L-SEG for the TCP framing: feeding a then b extracts the same messages, in the same order, and keeps the same rest as
-    feeding a+b at once (with `extract.tcp.frames`, induction over the number of segments gives independence of any segmentation).
-    Known finding KF-C27-2: if a later frame of the same segment is malformed, the messages already extracted from that segment
-    are dropped, while a segmentation that delivers them earlier hands them on."""
-    a, b = vc.sym_bytes("a"), vc.sym_bytes("b")
+    """Two-segment independence on a concrete shape with symbolic payloads: stream = frame(3 octets) followed by a second frame
+    (2 octets) / a zero length prefix / an incomplete frame, cut at every position: feeding the two segments extracts the same
+    messages in the same order and keeps the same rest as feeding the whole stream.
+    Known finding KF-C27-2: when a later frame of the same segment is malformed, the messages already extracted from that
+    segment are dropped (the exception discards the list), while a segmentation that delivers them earlier hands them on."""
+    second = vc.case("second", ["frame", "zero_prefix", "incomplete", "rejected_frame"])
+    p1 = [vc.sym_int(f"p1_{j}", lo=0, hi=255) for j in range(3)]
+    p2 = [vc.sym_int(f"p2_{j}", lo=0, hi=255) for j in range(2)]
+    f1 = [0, 3] + p1
+    tail = {"frame": [0, 2] + p2, "rejected_frame": [0, 2] + p2, "zero_prefix": [0, 0], "incomplete": [0, 5, p2[0]]}[second]
+    codes = f1 + tail
+    cut = vc.case("cut", list(range(0, len(codes) + 1)))
+    mk = lambda cs: from_codes([c % 256 if is_sym(c) else c for c in cs]) if cs else b""
+    a, b, whole = mk(codes[:cut]), mk(codes[cut:]), mk(codes)
+    log = UnpackLog()
+    first_ok = Not(log.fails(vc, mk(p1)))
+    vc.assume(first_ok)
+    if second == "frame":
+        vc.assume(Not(log.fails(vc, mk(p2))))
+    if second == "rejected_frame":
+        vc.assume(log.fails(vc, mk(p2)))
     l1, c1, s1 = mk_dns_layer(vc, "tcp", "tcp")
     l2, c2, s2 = mk_dns_layer(vc, "tcp", "tcp")
-    log1a, log1b, log2 = UnpackLog(), UnpackLog(), UnpackLog()
-    o1a = run_extract(vc, l1, a, True, log1a)
-    got1 = []          # messages handed on by the split run (those of a call that raised are lost)
-    failed1 = not o1a.ok
+    items = lambda o: [msg_data(m) for m in (o.result.items if vc.mode == "sym" else o.result)]
+    got1, failed1 = [], False
+    o1a = run_extract(vc, l1, a, True, log)
     if o1a.ok:
-        got1 += [msg_data(m) for m in (o1a.result.items if vc.mode == "sym" else o1a.result)]
-        o1b = run_extract(vc, l1, b, True, log1b)
-        failed1 = not o1b.ok
+        got1 += items(o1a)
+        o1b = run_extract(vc, l1, b, True, log)
         if o1b.ok:
-            got1 += [msg_data(m) for m in (o1b.result.items if vc.mode == "sym" else o1b.result)]
-    o2 = run_extract(vc, l2, a + b, True, log2)
-    got2 = [msg_data(m) for m in (o2.result.items if vc.mode == "sym" else o2.result)] if o2.ok else []
-    K = (not o2.ok) and len(got1) > 0
+            got1 += items(o1b)
+        else:
+            failed1 = True
+    else:
+        failed1 = True
+    o2 = run_extract(vc, l2, whole, True, log)
+    got2 = items(o2) if o2.ok else []
+    malformed = second in ("zero_prefix", "rejected_frame")
     vc.ensure("same_outcome", failed1 == (not o2.ok))
-    vc.ensure_kf("same_number_of_messages", len(got1) == len(got2), "KF-C27-2", K)
-    if len(got1) == len(got2):
-        for i, (x, y) in enumerate(zip(got1, got2)):
-            vc.ensure(f"same_message{i}", x == y)
+    vc.ensure("malformed_iff_parse_error", (not o2.ok) == malformed)
+    K = malformed and cut >= 5        # the complete first frame arrives in an earlier segment than the malformed one
+    vc.ensure_kf("same_messages_extracted", len(got1) == len(got2) and all(vc.eq(x, y) is True or vc.truthy(vc.eq(x, y)) for x, y in zip(got1, got2)), "KF-C27-2", K)
     if o2.ok and not failed1:
         vc.ensure("same_rest_kept", l1.req_buf == l2.req_buf)
+        vc.ensure("first_message_is_first_frame", len(got2) >= 1 and vc.truthy(vc.eq(got2[0], mk(p1))))
+
+
+# =============================================================================================
+# T2 (bounded): real DNSLayer driven sans-io over query/reply sessions, UDP and TCP with every <=2-cut segmentation
+
+ASSUMPTIONS = [
+    "T1 abstracts DNSMessage.unpack (decoded message = uninterpreted function of the frame bytes, failure = uninterpreted predicate; contract C25), pack_message (uninterpreted wire bytes; contract C26) and, in the state-machine scenario, unpack_message itself (its contract: extract.* scenarios)",
+    "TCP framing loop unrolled: <= 2 complete frames per call (extract.tcp.frames) / <= 1 (extract.tcp.buffering); segmentation independence for any number of segments is the induction described in EXPLANATION",
+    "layer.state_query.data: at most one pending flow and two messages per event, UDP transports (the TCP/UDP difference is confined to unpack_message / pack_message)",
+    "@expect on state_query is taken as a precondition (only DataReceived / ConnectionClosed events reach it)",
+]
+EXPLANATION = (
+    "T1 proves the mechanisms for all inputs of the stated shapes: DNSMessage.fail/succeed keep id, opcode, RD and the question section; handle_error sends exactly "
+    "that SERVFAIL to the client and reports a flow carrying the query; state_query closes the sender on a parse error, fires every hook with a flow that carries its "
+    "query and only answers the client on a flow whose query has the reply's id (outside the recorded unsolicited-message class); unpack_message cuts one stream greedily "
+    "into length-prefixed frames, keeps the incomplete rest, rejects a zero prefix, and treats buffered + new bytes exactly like their concatenation. "
+    "Independence of an arbitrary segmentation and correspondence over whole query/reply sessions are compositions of these lemmas (induction over segments / events) "
+    "that are not mechanised; they are checked bounded in T2 on the real layer with every <=2-cut segmentation."
+)
+
+
+def _q(ident, name, qtype=1, flags=0x0100, opcode=0):
+    from props.dnsref import header, question, wire_name
+    return header(ident, flags | (opcode << 11), 1) + question(wire_name(name), qtype)
+
+
+def _r(ident, name, qtype=1, rcode=0, addr=b"\x01\x02\x03\x04"):
+    from props.dnsref import header, question, wire_name, rr, ptr
+    return header(ident, 0x8180 | rcode, 1, 1) + question(wire_name(name), qtype) + rr(ptr(12), 1, addr)
+
+
+def _frame(w):
+    import struct
+    return struct.pack("!H", len(w)) + w
+
+
+def _deframe(data):
+    import struct
+    out = []
+    while len(data) >= 2:
+        n = struct.unpack_from("!H", data)[0]
+        out.append(bytes(data[2:2 + n]))
+        data = data[2 + n:]
+    return out
+
+
+def _run_session(proto, client_segments, server_segments, mode="forward", interleave=None):
+    """Feed client segments, then server segments (or the given interleaving of ('c'|'s', bytes)). Returns the transcript."""
+    from mitmproxy import flow as mflow
+    from mitmproxy.connection import ConnectionState
+    from mitmproxy.proxy.layers import dns as ldns
+    from props import sansio
+    opts = sansio.make_options()
+    client = sansio.make_client()
+    client.transport_protocol = proto
+    ctx = sansio.context_for(opts, client)
+    if mode != "no_upstream":
+        ctx.server.address = ("192.0.2.53", 53)
+    ctx.server.transport_protocol = proto
+    top = ldns.DNSLayer(ctx)
+    hooks = []
+
+    def policy(h):
+        fl = h.flow
+        req = getattr(fl, "request", None)
+        hooks.append(dict(name=h.name, has_request=req is not None, req=(req.id, tuple((q.name, q.type, q.class_) for q in req.questions)) if req is not None else None,
+                          resp=(fl.response.id, tuple((q.name, q.type, q.class_) for q in fl.response.questions)) if getattr(fl, "response", None) else None))
+        if h.name == "dns_request" and mode == "addon_response":
+            from mitmproxy import dns
+            fl.response = fl.request.succeed([dns.ResourceRecord.A(fl.request.questions[0].name or "x", __import__("ipaddress").IPv4Address("10.0.0.1"))])
+        if h.name == "dns_request" and mode == "addon_error":
+            fl.error = mflow.Error("blocked by addon")
+
+    d = sansio.Driver(top, hook_policy=policy, open_policy=(lambda cmd: "connection refused") if mode == "upstream_fails" else None)
+    d.start()
+    crashed = None
+    events = interleave if interleave is not None else [("c", s) for s in client_segments] + [("s", s) for s in server_segments]
+    try:
+        for side, seg in events:
+            conn = ctx.client if side == "c" else ctx.server
+            if side == "s" and ctx.server.state is ConnectionState.CLOSED:
+                continue
+            d.data(conn, seg)
+    except Exception as e:  # the layer crashed
+        crashed = f"{type(e).__name__}: {e}"
+    to_client, to_server = d.bytes_to(ctx.client), d.bytes_to(ctx.server)
+    done = getattr(top._handle_event, "__name__", "") == "state_done" or getattr(getattr(top._handle_event, "__wrapped__", None), "__name__", "") == "state_done"
+    return dict(hooks=hooks, to_client=_deframe(to_client) if proto == "tcp" else [bytes(c) for conn, c in d.sent_chunks if conn is ctx.client],
+                to_server=_deframe(to_server) if proto == "tcp" else [bytes(c) for conn, c in d.sent_chunks if conn is ctx.server],
+                client_closed=any(c is ctx.client for c, _ in d.closed), done=done, crashed=crashed)
+
+
+def _transcript_key(t):
+    return (tuple((h["name"], h["req"], h["resp"]) for h in t["hooks"]), tuple(t["to_client"]), tuple(t["to_server"]), t["client_closed"], t["done"], t["crashed"])
+
+
+def bounded(tier, seed):
+    import itertools, random
+    from props import dnsref, sansio
+    b = Bounded()
+    b.rule = ("sessions = sequences of client queries and upstream replies (matching, out of order, unsolicited id, duplicate reply, duplicated ids, reply with another question, "
+              "reply before the query, no upstream, upstream connect failure, addon-set response, addon-set error) over UDP (one datagram per message, every interleaving order "
+              "listed) and TCP (client stream and server stream each fed with every segmentation of <= 2 cuts, quick: <= 1 cut for streams > 40 bytes); TCP streams with zero length "
+              "prefix / undecodable frame / incomplete frame after 0-2 valid frames. distinct = (session, transport, segmentation); non-trivial = at least one hook fired")
+    b.bound = "<= 3 queries and <= 3 replies per session; <= 2 cuts per stream"
+    A, B_, C_ = "a.example", "b.example", "c.example"
+    sessions = [
+        ("matching", [_q(1, A)], [_r(1, A)], "forward", ""),
+        ("two_out_of_order", [_q(1, A), _q(2, B_)], [_r(2, B_), _r(1, A)], "forward", ""),
+        ("three", [_q(1, A), _q(2, B_), _q(3, C_, 28)], [_r(1, A), _r(3, C_, 28), _r(2, B_)], "forward", ""),
+        ("nxdomain", [_q(4, A)], [_r(4, A, rcode=3)], "forward", ""),
+        ("duplicate_reply", [_q(1, A)], [_r(1, A), _r(1, A)], "forward", ""),
+        ("opcode_and_flags", [_q(5, A, flags=0x0000, opcode=2)], [], "no_upstream", ""),
+        ("no_upstream", [_q(6, A), _q(7, B_)], [], "no_upstream", ""),
+        ("upstream_fails", [_q(8, A)], [], "upstream_fails", ""),
+        ("addon_response", [_q(9, A), _q(10, B_)], [], "addon_response", ""),
+        ("addon_error", [_q(11, A, flags=0x0000)], [], "addon_error", ""),
+        ("unsolicited", [_q(1, A)], [_r(9, A)], "forward", "unsolicited_upstream_message"),
+        ("unsolicited_then_matching", [_q(1, A)], [_r(9, B_), _r(1, A)], "forward", "unsolicited_upstream_message"),
+        ("duplicated_ids", [_q(7, A), _q(7, B_)], [_r(7, A), _r(7, B_)], "forward", "duplicated_ids"),
+        ("reply_other_question", [_q(1, A)], [_r(1, B_)], "forward", "upstream_reply_with_other_question"),
+    ]
+    def check_session(name, proto, t, queries, mode, cls, inp):
+        sfx = ("." + cls) if cls else ""
+        if t["crashed"]:
+            b.fail("c27.layer_does_not_crash" + sfx, inp, t["crashed"])
+            return
+        sent = []
+        for qw in queries:
+            (hdr, qs, _), _i = dnsref.parse_message(qw)
+            sent.append((hdr, qs))
+        for h in t["hooks"]:
+            if not h["has_request"]:
+                b.fail("c27.reported_flow_carries_its_query" + sfx, inp, f"hook {h['name']} fired with a flow without request (response {h['resp']})")
+            elif h["name"] == "dns_response" and h["resp"] is not None and (h["req"][0] != h["resp"][0] or h["req"][1] != h["resp"][1]) and mode == "forward":
+                b.fail("c27.response_flow_pairs_reply_with_its_query" + sfx, inp, f"flow.request {h['req']} flow.response {h['resp']}")
+        for w in t["to_client"]:
+            try:
+                (hdr, qs, secs), _i = dnsref.parse_message(w)
+            except dnsref.RefError as e:
+                b.fail("c27.reply_wellformed" + sfx, inp, f"{e}: {w.hex()}")
+                continue
+            match = [s for s in sent if s[0][0] == hdr[0] and s[1] == qs]
+            if not match:
+                b.fail("c27.reply_answers_a_client_query" + sfx, inp, f"client received id={hdr[0]} question={qs}; it sent {[(s[0][0], s[1]) for s in sent]}")
+                continue
+            if mode in ("no_upstream", "upstream_fails", "addon_error"):
+                qh = match[0][0]
+                ok = hdr[1] == 1 and hdr[8] == 2 and hdr[2] == qh[2] and hdr[5] == qh[5] and secs == ((), (), ())
+                if not ok:
+                    b.fail("c27.servfail_keeps_query_fields" + sfx, inp, f"query header {qh} reply header {hdr} sections {secs}")
+        if mode in ("no_upstream", "upstream_fails", "addon_error", "addon_response"):
+            if len(t["to_client"]) != len(queries):
+                b.fail("c27.one_reply_per_query" + sfx, inp, f"{len(queries)} queries, {len(t['to_client'])} replies")
+        if mode != "forward" and mode != "addon_response" and not all(h["name"] in ("dns_request", "dns_error") for h in t["hooks"]):
+            b.fail("c27.error_path_hooks" + sfx, inp, str([h["name"] for h in t["hooks"]]))
+
+    for name, queries, replies, mode, cls in sessions:
+        # UDP: one datagram per message; also replies interleaved after the first query
+        orders = [[("c", q) for q in queries] + [("s", r) for r in replies]]
+        if len(queries) > 1 and replies:
+            orders.append([("c", queries[0]), ("s", replies[-1])] + [("c", q) for q in queries[1:]] + [("s", r) for r in replies[:-1]])
+        for oi, ev in enumerate(orders):
+            t = _run_session("udp", None, None, mode, interleave=ev)
+            inp = {"session": name, "transport": "udp", "order": oi, "class": cls or "plain"}
+            b.case((name, "udp", oi), nontrivial=bool(t["hooks"]))
+            if oi == 0 or not cls:
+                # in the second order a reply arrives before its query was sent: it is unsolicited at that moment
+                check_session(name, "udp", t, queries, mode, cls if oi == 0 else (cls or "unsolicited_upstream_message"), inp)
+        # TCP: every segmentation of both streams
+        cstream = b"".join(_frame(q) for q in queries)
+        sstream = b"".join(_frame(r) for r in replies)
+        ccuts = 2 if (tier == "thorough" or len(cstream) <= 40) else 1
+        scuts = 2 if (tier == "thorough" or len(sstream) <= 40) else 1
+        ref = None
+        csplits = list(sansio.all_splits(cstream, ccuts))
+        ssplits = list(sansio.all_splits(sstream, scuts)) if sstream else [[]]
+        combos = [(cs, ssplits[0]) for cs in csplits] + [(csplits[0], ss) for ss in ssplits[1:]]
+        for cs, ss in combos:
+            t = _run_session("tcp", cs, ss, mode)
+            inp = {"session": name, "transport": "tcp", "client_segments": [len(x) for x in cs], "server_segments": [len(x) for x in ss], "class": cls or "plain"}
+            b.case((name, "tcp", tuple(len(x) for x in cs), tuple(len(x) for x in ss)), nontrivial=bool(t["hooks"]))
+            if ref is None:
+                ref = _transcript_key(t)
+                check_session(name, "tcp", t, queries, mode, cls, inp)
+            elif _transcript_key(t) != ref:
+                b.fail("c27.tcp_segmentation_independent" + (("." + cls) if cls else ""), inp, f"transcript differs from the unsegmented run: {_transcript_key(t)} vs {ref}")
+    # TCP streams with malformed parts
+    v1, v2 = _frame(_q(21, A)), _frame(_q(22, B_))
+    bad = {"zero_prefix": b"\x00\x00", "undecodable": _frame(b"abc"), "incomplete": b"\x00\x30ab"}
+    for nvalid, (kind, tail) in itertools.product((0, 1, 2), bad.items()):
+        stream = [b"", v1, v1 + v2][nvalid] + tail
+        cls = "valid_frame_then_malformed_frame" if (nvalid > 0 and kind != "incomplete") else ""
+        ref = None
+        for cs in sansio.all_splits(stream, 2 if (tier == "thorough" or len(stream) <= 40) else 1):
+            t = _run_session("tcp", cs, [], "forward")
+            inp = {"stream": f"{nvalid} valid frames + {kind}", "client_segments": [len(x) for x in cs], "class": cls or "plain"}
+            b.case(("malformed", nvalid, kind, tuple(len(x) for x in cs)), nontrivial=True)
+            if t["crashed"]:
+                b.fail("c27.layer_does_not_crash", inp, t["crashed"])
+                continue
+            if kind != "incomplete" and not (t["client_closed"] and t["done"]):
+                b.fail("c27.malformed_frame_closes_the_connection", inp, f"closed={t['client_closed']} done={t['done']}")
+            if kind == "incomplete" and (t["client_closed"] or len(t["to_server"]) != nvalid):
+                b.fail("c27.incomplete_frame_waits", inp, f"closed={t['client_closed']} forwarded={len(t['to_server'])}")
+            if ref is None:
+                ref = _transcript_key(t)
+            elif _transcript_key(t) != ref:
+                b.fail("c27.tcp_segmentation_independent" + (("." + cls) if cls else ""), inp,
+                       f"requests seen {[h['req'] for h in t['hooks']]} forwarded {len(t['to_server'])}; unsegmented run: {[h[1] for h in ref[0]]} forwarded {len(ref[2])}")
+    return b
